@@ -1,12 +1,15 @@
 import TapkeeVerif.Model.Mat
+import TapkeeVerif.Model.DMat
 /-
 Sparse-triplet assembly (`utils/sparse.hpp: sparse_matrix_from_triplets`, i.e.
 `Eigen::SparseMatrix::setFromTriplets`): the matrix whose entry `(i,j)` is the **sum of all
 triplets** with that position.  Core Lean only.
 
 * `fromTriplets`     – the defining form (entry = sum over the list of the matching values);
-* `fromTripletsArr`  – the accumulating form the drivers run (one pass, `+=` into a zero array,
-                       which is literally what the C++ does); `Proofs/Triplets.lean` proves the two equal.
+* `fromTripletsD`    – the accumulating form the drivers run (one pass, `+=` into a zero array, which is
+                       literally what the C++ does), returned as first-order data (`DMat`, see `Model/DMat.lean`:
+                       function-valued definitions do not cache in compiled code);
+                       `Proofs/Triplets.lean` proves `(fromTripletsD ts).get = fromTriplets ts`.
 * `vecFromPairs`     – the same for a vector (`D(i) += h`).
 -/
 namespace TapkeeVerif
@@ -24,23 +27,16 @@ def fromTriplets [Add K] [Zero K] (ts : List (Triplet n m K)) : Mat n m K :=
 def accumStep [Add K] (acc : Array (Array K)) (t : Triplet n m K) : Array (Array K) :=
   acc.modify t.1.1 fun row => row.modify t.2.1.1 (· + t.2.2)
 
-def readArr [Zero K] (arr : Array (Array K)) (i j : Nat) : K :=
-  match arr[i]? with
-  | none => 0
-  | some row => (row[j]?).getD 0
-
 /-- one pass over the triplets, `+=` into a zero matrix -/
-def fromTripletsArr [Add K] [Zero K] (ts : List (Triplet n m K)) : Mat n m K :=
-  let arr := ts.foldl accumStep (Array.replicate n (Array.replicate m (0 : K)))
-  fun i j => readArr arr i.1 j.1
+def fromTripletsD [Add K] [Zero K] (ts : List (Triplet n m K)) : DMat n m K :=
+  ⟨ts.foldl accumStep (Array.replicate n (Array.replicate m (0 : K)))⟩
 
 /-- `D(i) += v` for every pair `(i, v)`, starting from the zero vector -/
 def vecFromPairs [Add K] [Zero K] (ps : List (Fin n × K)) : Vec n K :=
   fun i => (ps.map fun p => if p.1 = i then p.2 else 0).sum
 
-def vecFromPairsArr [Add K] [Zero K] (ps : List (Fin n × K)) : Vec n K :=
-  let arr := ps.foldl (fun (acc : Array K) p => acc.modify p.1.1 (· + p.2)) (Array.replicate n (0 : K))
-  fun i => (arr[i.1]?).getD 0
+def vecFromPairsD [Add K] [Zero K] (ps : List (Fin n × K)) : DVec n K :=
+  ⟨ps.foldl (fun (acc : Array K) p => acc.modify p.1.1 (· + p.2)) (Array.replicate n (0 : K))⟩
 
 /-- `rows.flatMap f` over all `i : Fin n` in increasing order (the sample loop) -/
 def overFin (n : Nat) {α : Type} (f : Fin n → List α) : List α := (List.finRange n).flatMap f
